@@ -12,6 +12,7 @@
   explicit outcome of the byte loops (`Res.fuel`), `parse_fuel_free` (C04) shows it never happens.
   Core Lean only.
 -/
+import NdnVerif.Gen.C13Facts
 import NdnVerif.C13.Schema
 namespace Ndn.C13
 
@@ -202,8 +203,12 @@ def readUintLoop (w l : Nat) (rest : Bytes) : Res (Val × Bytes) :=
   else if l > rest.length then .err 0
   else .ok (.nat (beDecMod w 0 (rest.take l)), rest.drop l) 0
 
-/-- a non-negative integer of the NDN packet format is 1, 2, 4 or 8 bytes long -/
-def natLenOk (l : Nat) : Bool := l == 1 || l == 2 || l == 4 || l == 8
+/-- a non-negative integer of the NDN packet format is 1, 2, 4 or 8 bytes long; whether the generated decoders
+    ENFORCE that is a regenerated fact (`Gen/C13Facts.lean`, read off the decoder template on every run): on a
+    tree whose template accepts every length the model does too — and `natural_of_other_width_rejected` no
+    longer checks. -/
+def natLenOk (l : Nat) : Bool :=
+  !Ndn.Gen.C13.naturalWidthChecked || (l == 1 || l == 2 || l == 4 || l == 8)
 
 /-- natural and time fields (`GenNaturalNumberDecode`; repair F-13e: before it EVERY length was
     accepted — `6a 03 01 02 03` decoded to 66051, `6a 00` to 0, nine bytes lost their first):
